@@ -9,11 +9,13 @@
                      only with a fallback (Derive/Conforms.v)
    [typed e t 0 v] : the value of the generated type (captured SerializedValues are the bytes of
                      encoding e)
+   [norm t v]      : the equivalent value a decode/encode cycle yields (unknown fields dropped
+                     unless the struct has a fallback, an optional field holding None = absent)
    NOT theorems here: "the generated Rust code compiles" (decided by rustc on a corpus, see
-   checks/c16.py) and the re-encoding / fallback / old-new clauses (see design/C16.md: evaluated
-   on every case by the model driver and by the monitor on the real generated types). *)
+   checks/c16.py) and the old/new clause across two different types (see design/C16.md: monitored
+   on the real generated types and compared with the model on every pair case). *)
 From Aldrin Require Import Codec.Base Codec.Value Codec.Ser Codec.De.
-From Aldrin Require Import Derive.Ty Derive.TDe Derive.TSer Derive.Conforms Derive.DocAttr
+From Aldrin Require Import Derive.Ty Derive.TDe Derive.TSer Derive.Conforms Derive.TDeTotal Derive.DocAttr
   Derive.DocAttrProofs Props.C16_lemmas.
 Open Scope N_scope.
 
@@ -28,11 +30,23 @@ Theorem C16_decides : forall e t v d bs, wf true v = true -> ser e d v = Ok bs -
 Proof. exact decides. Qed.
 Print Assumptions C16_decides.
 
+(* a conforming value, in either container encoding, unknown field ids included, is decoded, and
+   what the generated type serializes decodes (generic decoder) to the equivalent value *)
 Theorem C16_accepts : forall e t v bs, wf_ty t = true -> wf true v = true ->
   conforms t v = true -> serialize e v = Ok bs ->
-  exists x, tde_top t bs = Ok x /\ typed e t 0 v = Some x.
-Proof. exact accepts. Qed.
+  exists x bs', tde_top t bs = Ok x /\ tser_top t x = Ok bs' /\ de_as_value true bs' = Ok (norm t v).
+Proof. exact accepts_full. Qed.
 Print Assumptions C16_accepts.
+
+(* a decode/encode cycle returns bytes from which the generated type reads the IDENTICAL value —
+   including every captured SerializedValue (unknown fields of a struct with fallback, the
+   payload of an unknown variant, `value` fields), which [typed] defines as the bytes of the
+   input's encoding of that part: they survive byte for byte *)
+Theorem C16_fallback_preserves : forall e t v bs, wf_ty t = true -> wf true v = true ->
+  conforms t v = true -> serialize e v = Ok bs ->
+  exists x bs', tde_top t bs = Ok x /\ typed e t 0 v = Some x /\ tser_top t x = Ok bs' /\ tde_top t bs' = Ok x.
+Proof. exact fallback_preserves. Qed.
+Print Assumptions C16_fallback_preserves.
 
 Theorem C16_rejects : forall e t v bs, wf_ty t = true -> wf true v = true ->
   conforms t v = false -> serialize e v = Ok bs ->
@@ -63,6 +77,11 @@ Theorem C16_unknown_ids_tolerated : forall fs fb l id x,
 Proof. exact unknown_field_tolerated. Qed.
 Print Assumptions C16_unknown_ids_tolerated.
 
+(* the model decoder is total: fuel = length + 1 never runs out, on ANY byte string *)
+Theorem C16_total : forall t b, tde_top t b <> Err Fuel.
+Proof. exact tde_total. Qed.
+Print Assumptions C16_total.
+
 (* the doc attribute: refuted as emitted today, true for lines without quote/backslash/CR, true
    for every line once the text is escaped *)
 Theorem C16_doc_attr_refuted : exists d, rust_string_literal (emit_doc_attr d) <> Some d.
@@ -77,7 +96,7 @@ Theorem C16_doc_attr_fixed : forall d, rust_string_literal (emit_doc_attr_fixed 
 Proof. exact doc_attr_fixed. Qed.
 Print Assumptions C16_doc_attr_fixed.
 
-(* hypotheses are satisfiable; concrete instances of the clauses that are not yet theorems *)
+(* hypotheses are satisfiable; a concrete instance of the cycle *)
 Definition ex_plain := TStruct [(1, (true, TLeaf (LInt U8))); (2, (false, TLeaf LString));
                                 (5, (true, TVec (TLeaf (LInt U16))))] false.
 Definition ex_fb := TStruct [(1, (true, TLeaf (LInt U8))); (2, (false, TLeaf LString))] true.
